@@ -163,6 +163,8 @@ class Backend:
             self.c.transports[TransportType.COAP] = self.coap
             self.c.transports[TransportType.BLE] = self.ble
             self.via = rng.choice(["ip", "coap", "ble"])
+            # a loaded pairing belongs to ONE transport; the accessory may be heard on another (a BLE pairing seen on mDNS ...)
+            self.pair_via = rng.choice([self.via, self.via, "ip", "coap", "ble"])
             self.delay = 0.0 if self.via == "ble" else 0.5
         self.load_pairings(pairing_mode)
 
@@ -175,15 +177,21 @@ class Backend:
             if mode == "cached":
                 self.cache.async_create_or_update_map(dev_id, 3, entity_map(), None, 5)
             pd = {"AccessoryPairingID": dev_id, "AccessoryLTPK": "00" * 32, "iOSPairingId": "x", "iOSDeviceLTSK": "11" * 32, "iOSDeviceLTPK": "22" * 32}
-            kind = self.kind if self.kind != "aggregate" else self.via
+            kind = self.kind if self.kind != "aggregate" else self.pair_via
             target = self.c if self.kind != "aggregate" else {"ip": self.ip, "coap": self.coap, "ble": self.ble}[kind]
+            if self.kind == "aggregate" and self.pair_via != self.via:
+                self.cross_transport = True
             if kind == "ble":
                 pd.update({"AccessoryAddress": "AA:BB:CC:DD:EE:FF", "Connection": "BLE"})
             elif kind == "coap":
                 pd.update({"AccessoryIP": "fd00::5", "AccessoryPort": 5683, "Connection": "CoAP"})
             else:
                 pd.update({"AccessoryIP": "10.0.0.5", "AccessoryPort": 51826, "Connection": "IP"})
-            target.load_pairing("alias-" + dev_id, pd)
+            if self.kind == "aggregate":
+                # through the aggregate controller itself (it routes by pd["Connection"] and keeps its own pairings table)
+                self.c.load_pairing("alias-" + dev_id, pd)
+            else:
+                target.load_pairing("alias-" + dev_id, pd)
 
     def find(self, dev_id, timeout):
         # the caller's spelling is varied only where the library itself makes the look-up case-insensitive (the mDNS-based
@@ -266,7 +274,7 @@ async def run_schedule(ctx, kind, pairing_mode, waiters, adverts, cancel, idx) -
             elif what == "C" and recs[arg]["task"] is not None and not recs[arg]["task"].done():
                 recs[arg]["cancelled"] = True
                 recs[arg]["task"].cancel()
-        await asyncio.sleep(12)
+        await asyncio.sleep(12 + max([0.0] + [r["start"] + r["timeout"] - now for r in recs]))
         await vloop.settle()
         if esc.bad:
             return
@@ -370,6 +378,10 @@ def schedules(ctx):
     # two waiters over one or two ids
     for (i1, i2), s1, s2, t1, t2, ax, ay, cn in itertools.product([(ID_X, ID_X), (ID_X, ID_Y)], starts, starts, timeouts, timeouts, adv_times, [None, 1.0, 2.0], cancels):
         out.append(([(i1, s1, t1), (i2, s2, t2)], {ID_X: ax, ID_Y: ay}, cn))
+    # the caller's timeout is the caller's: longer than any default a layer below may have, advertisement late in the wait
+    for to, at in itertools.product([12.0, 25.0, 45.0], [None, 0.2, 11.0, 20.0, 31.0]):
+        out.append(([(ID_X, 0.0, to)], {ID_X: at}, None))
+        out.append(([(ID_X, 0.0, to), (ID_Y, 1.0, 3.0)], {ID_X: at, ID_Y: 2.0}, None))
     return out
 
 
